@@ -8,6 +8,7 @@ package main
 
 import (
 	"fmt"
+	"sort"
 	"strings"
 	"time"
 
@@ -414,6 +415,13 @@ func (t *truth) compare(p *parents, times []time.Time, out []finding) []finding 
 	add := func(clause, shape, what string) {
 		out = append(out, finding{key: clause + "/" + pre + shape, what: what})
 	}
+	// One defect gets a key of its own, independent of the call class: versions
+	// of one child written in the same instant listed out of version order (the
+	// library's final sort by index is not stable and does not compare versions).
+	const disorderShape = "same-instant-versions-out-of-order"
+	addDisorder := func(clause, what string) {
+		out = append(out, finding{key: clause + "/" + t.sp.keyPrefix() + "/any-options/" + disorderShape, what: what})
+	}
 	if p.n() != len(t.pv) {
 		add("harness", "parent-count", "parent versions lost")
 		return out
@@ -479,6 +487,7 @@ func (t *truth) compare(p *parents, times []time.Time, out []finding) []finding 
 			}
 		}
 		// (b) update lists
+		disorder := false
 		last := -1
 		pos := 0
 		for j := range slots {
@@ -496,6 +505,22 @@ func (t *truth) compare(p *parents, times []time.Time, out []finding) []finding 
 			}
 			run := ups[start:pos]
 			last = j
+			for a := 0; a+1 < len(run); a++ {
+				if run[a].Timestamp.Equal(run[a+1].Timestamp) && run[a].Version > run[a+1].Version {
+					addDisorder("updates", fmt.Sprintf("parent v%d index %d (%v): update for version %d listed before version %d of the same instant; %d updates %v",
+						pvi.Version, j, s.child, run[a].Version, run[a+1].Version, len(ups), fmtUpdates(ups)))
+					disorder = true
+					// judge the rest of the run as if it were in order
+					run = append(osm.Updates(nil), run...)
+					sort.SliceStable(run, func(x, y int) bool {
+						if !run[x].Timestamp.Equal(run[y].Timestamp) {
+							return run[x].Timestamp.Before(run[y].Timestamp)
+						}
+						return run[x].Version < run[y].Version
+					})
+					break
+				}
+			}
 			if !s.active {
 				continue // not judged: the property says nothing about filtered children's updates
 			}
@@ -599,8 +624,13 @@ func (t *truth) compare(p *parents, times []time.Time, out []finding) []finding 
 					} else if got.Ver == want.Ver {
 						shape = "wrong-fields"
 					}
-					add("timetravel", shape, fmt.Sprintf("parent v%d at t=%v (T+%v) ref %d (%v): got %+v, want %+v; updates %v",
-						pvi.Version, q.UTC().Format(time.RFC3339Nano), q.Sub(pvi.Commit), j, s.child, got, want, fmtUpdates(ups)))
+					what := fmt.Sprintf("parent v%d at t=%v (T+%v) ref %d (%v): got %+v, want %+v; updates %v",
+						pvi.Version, q.UTC().Format(time.RFC3339Nano), q.Sub(pvi.Commit), j, s.child, got, want, fmtUpdates(ups))
+					if disorder {
+						addDisorder("timetravel", what)
+					} else {
+						add("timetravel", shape, what)
+					}
 					failed = true
 					break
 				}
